@@ -154,19 +154,21 @@ Example C09_f7_witness :
      = (OK, Proposed, 2, [9; 9; 9; 9]).
 Proof. vm_compute. split; reflexivity. Qed.
 
+Definition w_s2 : store := Eval vm_compute in fst (w_step w_s1 w_f7).
 Theorem C09_refuted : ~ C09_full.
 Proof.
   intros H.
-  destruct (w_step w_s1 w_f7) as [s' o] eqn:E.
+  assert (E : w_step w_s1 w_f7 = (w_s2, OK)) by (vm_compute; reflexivity).
   assert (F : exists f, finished w_s1 = Some f /\ st_final_group f = Some w_group).
   { eexists; split; vm_compute; reflexivity. }
   destruct F as [f [F G]].
   specialize (H sym_verify all_j all_k w_b w_B w_epoch1 0
-                (mkGp (Some (mkMd w_B [97] [9; 9; 9; 9; 1])) (PProposal w_terms_f7)) s' o f w_group w_a
+                (mkGp (Some (mkMd w_B [97] [9; 9; 9; 9; 1])) (PProposal w_terms_f7)) w_s2 OK f w_group w_a
                 (mkMd w_B [97] [9; 9; 9; 9; 1])).
   change (prun sym_verify all_j all_k w_b w_B init_store w_epoch1) with (w_run init_store w_epoch1) in H.
   assert (Q : w_run init_store w_epoch1 = w_s1) by (vm_compute; reflexivity). rewrite Q in H.
-  assert (N : s' <> w_s1). { intros C. subst s'. vm_compute in E. discriminate. }
+  assert (N : w_s2 <> w_s1).
+  { intros C. apply (f_equal (fun s => st_epoch (get_current w_B s))) in C. vm_compute in C. discriminate. }
   destruct (H F G E N eq_refl (or_introl eq_refl) eq_refl) as [next [_ V]].
   vm_compute in V. discriminate.
 Qed.
@@ -193,11 +195,14 @@ Example C09_execute_witness :
   /\ (let '(s', o) := w_step_c w_s2c w_exec_by_b in (o, st_state (get_current w_B s'))) = (OK, Left).
 Proof. vm_compute. split; reflexivity. Qed.
 
+Definition w_s3c : store := Eval vm_compute in fst (w_step_c w_s2c w_exec_by_b).
 Theorem C09_execute_leader_refuted : ~ C09_execute_leader_full.
 Proof.
-  intros H. destruct (w_step_c w_s2c w_exec_by_b) as [s' o] eqn:E.
-  assert (N : s' <> w_s2c). { intros C. subst s'. vm_compute in E. discriminate. }
-  destruct (H sym_verify all_j all_k w_c w_B w_s2c 0 _ s' o (mkMd w_B [98] [2; 2; 2; 2; 1]) 0 E N eq_refl eq_refl) as [l [L A]].
+  intros H.
+  assert (E : w_step_c w_s2c w_exec_by_b = (w_s3c, OK)) by (vm_compute; reflexivity).
+  assert (N : w_s3c <> w_s2c).
+  { intros C. apply (f_equal (fun s => status_index (st_state (get_current w_B s)))) in C. vm_compute in C. discriminate. }
+  destruct (H sym_verify all_j all_k w_c w_B w_s2c 0 _ w_s3c OK (mkMd w_B [98] [2; 2; 2; 2; 1]) 0 E N eq_refl eq_refl) as [l [L A]].
   vm_compute in L. inversion L; subst l. vm_compute in A. discriminate.
 Qed.
 Print Assumptions C09_execute_leader_refuted.
